@@ -470,6 +470,9 @@ loop:
 			return nil, 0, ErrParseFrame
 		}
 	}
+	if len(*buffer)-start > 254 { // RFC 1035 2.3.4: a name is at most 255 octets on the wire, also across compression pointers
+		return nil, 0, ErrParseFrame
+	}
 	if len(*buffer) <= start {
 		return (*buffer)[start:], index + 1, nil
 	}
